@@ -42,6 +42,7 @@ def run(ctx):
         ctx.guard("C17", "casts", lambda: casts.census(ctx, prog, scope='compare::position_array::', floor=3))
         ctx.guard("C17", "const values", lambda: data.const_census(ctx, prog, data.CONST_SCOPES["C17"], floor=1))
         ctx.guard("C17", "element-asserts", lambda: validate.element_range_asserts(ctx, prog))
+        ctx.guard("C17", "initialisers", lambda: typestate.initialisers_complete(ctx, prog))
         ctx.guard("C17", "summaries", lambda: summary.check(ctx, prog, 'compare::position_array::|internals::utils::|FuzzyHashCompareTarget::(new|init_from|block_hash_[12]|is_equiv|full_eq|log_block_size|block_size)|core::default::Default>::default', floor=10))
         ctx.guard("C17", "path summaries", lambda: summary.check_paths(ctx, prog, 'compare::position_array::|internals::utils::|FuzzyHashCompareTarget::(new|init_from|block_hash_[12]|is_equiv|full_eq|log_block_size|block_size)|core::default::Default>::default', floor=6))
         if c in ("dbg", "unsafe_dbg", "strict_dbg"):
